@@ -68,6 +68,7 @@ Definition thread_ok (s : bst) (t : bthread) : Prop :=
   | BSync l (SyAccept | SyServe | SyWait _) => l_acc (get_l s l) <> ANone     (* the accept loop has its acceptor *)
   | BSync l SyListen => l < length (lsts s) /\ (l_reg (get_l s l) = true \/ l_closed (get_l s l) = true)
   | BListen l _ => l < length (lsts s)
+  | BRetry l _ => l < length (lsts s)
   | _ => True
   end.
 
@@ -134,11 +135,12 @@ Qed.
 Lemma tok_close_listener s l t : thread_ok s t -> thread_ok (close_listener s l) t.
 Proof.
   assert (Hlen : length (lsts (close_listener s l)) = length (lsts s)) by (unfold close_listener; cbn [set_l lsts]; apply upd_length).
-  destruct t as [l' pc|c pc a|pc|l' b|l' b]; cbn [thread_ok]; auto.
+  destruct t as [l' pc|c pc a|pc|l' b|l' b|l' b]; cbn [thread_ok]; auto.
   - destruct pc; auto;
       try (rewrite close_listener_get; intros Ha; destruct (andb (l =? l') _) eqn:E; cbn; [|exact Ha];
            apply andb_true_iff in E as [E _]; apply Nat.eqb_eq in E; subst; destruct (l_acc (get_l s l')); congruence).
     rewrite Hlen, close_listener_get. intros [Hl Hr]. split; [exact Hl|]. destruct (andb _ _); cbn; auto.
+  - rewrite Hlen. auto.
   - rewrite Hlen. auto.
 Qed.
 Lemma ginv_close_listener s l : GInv s -> GInv (close_listener s l).
@@ -160,11 +162,12 @@ Definition l_with_reg (x : lst) : lst := {| l_reg := true; l_closed := l_closed 
 Lemma tok_set_reg s l t : thread_ok s t -> thread_ok (set_l s l (l_with_reg (get_l s l))) t.
 Proof.
   assert (Hlen : length (lsts (set_l s l (l_with_reg (get_l s l)))) = length (lsts s)) by (cbn [set_l lsts]; apply upd_length).
-  destruct t as [l' pc|c pc a|pc|l' b|l' b]; cbn [thread_ok]; auto.
+  destruct t as [l' pc|c pc a|pc|l' b|l' b|l' b]; cbn [thread_ok]; auto.
   - destruct pc; auto;
       try (rewrite get_l_upd; intros Ha; destruct (andb (l =? l') _) eqn:E; cbn; [|exact Ha];
            apply andb_true_iff in E as [E _]; apply Nat.eqb_eq in E; subst; exact Ha).
     rewrite Hlen, get_l_upd. intros [Hl Hr]. split; [exact Hl|]. destruct (andb _ _) eqn:E; cbn; auto.
+  - rewrite Hlen. auto.
   - rewrite Hlen. auto.
 Qed.
 Lemma ginv_set_reg s l : GInv s -> GInv (set_l s l (l_with_reg (get_l s l))).
@@ -186,11 +189,12 @@ Definition l_with_open (x : lst) : lst := {| l_reg := l_reg x; l_closed := l_clo
 Lemma tok_set_open s l t : thread_ok s t -> thread_ok (set_l s l (l_with_open (get_l s l))) t.
 Proof.
   assert (Hlen : length (lsts (set_l s l (l_with_open (get_l s l)))) = length (lsts s)) by (cbn [set_l lsts]; apply upd_length).
-  destruct t as [l' pc|c pc a|pc|l' b|l' b]; cbn [thread_ok]; auto.
+  destruct t as [l' pc|c pc a|pc|l' b|l' b|l' b]; cbn [thread_ok]; auto.
   - destruct pc; auto;
       try (rewrite get_l_upd; intros Ha; destruct (andb (l =? l') _) eqn:E; cbn; [discriminate|exact Ha]).
     rewrite Hlen, get_l_upd. intros [Hl Hr]. split; [exact Hl|]. destruct (andb (l =? l') _) eqn:E; cbn; auto.
     apply andb_true_iff in E as [E _]. apply Nat.eqb_eq in E. subst. exact Hr.
+  - rewrite Hlen. auto.
   - rewrite Hlen. auto.
 Qed.
 Lemma ginv_set_open s l : GInv s -> l < length (lsts s) -> l_closed (get_l s l) = false -> l_reg (get_l s l) = true -> sh s = ShNot ->
@@ -213,7 +217,7 @@ Proof. unfold get_c, new_chan. cbn [chans]. rewrite app_nth2 by lia. rewrite Nat
 
 Lemma tok_new_chan s t : thread_ok s t -> thread_ok (new_chan s) t.
 Proof.
-  destruct t as [l' pc|c pc a|pc|l' b|l' b]; cbn [thread_ok]; auto.
+  destruct t as [l' pc|c pc a|pc|l' b|l' b|l' b]; cbn [thread_ok]; auto.
   intros [Hc Hp]. split; [unfold new_chan; cbn [chans]; rewrite app_length; cbn; lia|].
   unfold read_ok. cbn [new_chan sh holder]. rewrite (get_c_new s c Hc). exact Hp.
 Qed.
@@ -228,7 +232,7 @@ Qed.
 
 Lemma tok_holder_add s c t : thread_ok s t -> thread_ok (set_holder s (c :: holder s)) t.
 Proof.
-  destruct t as [l' pc|c' pc a|pc|l' b|l' b]; cbn [thread_ok]; auto.
+  destruct t as [l' pc|c' pc a|pc|l' b|l' b|l' b]; cbn [thread_ok]; auto.
   intros [Hc Hp]. split; [exact Hc|]. destruct pc; auto.
   - intros Hu Hs. right. apply Hp; auto.
   - intros Hu. specialize (Hp Hu). unfold read_ok in *. cbn [set_holder sh holder]. destruct (sh s); auto; right; exact Hp.
@@ -237,7 +241,7 @@ Qed.
 Lemma tok_close_chan s c t : thread_ok s t -> thread_ok (close_chan s c) t.
 Proof.
   destruct (close_chan_fields s c) as [F1 [F2 [F3 [F4 F5]]]].
-  destruct t as [l' pc|c' pc a|pc|l' b|l' b]; cbn [thread_ok]; unfold get_l; rewrite ?F3, ?F5; auto.
+  destruct t as [l' pc|c' pc a|pc|l' b|l' b|l' b]; cbn [thread_ok]; unfold get_l; rewrite ?F3, ?F5; auto.
   intros [Hc Hp]. split; [exact Hc|].
   assert (Hold : c_closed (get_c (close_chan s c) c') = false -> c_closed (get_c s c') = false /\ c' <> c).
   { intros Hn. split.
@@ -283,14 +287,16 @@ Theorem binv_bstep s i conn s' : BInv s -> bstep s i conn = Some s' -> BInv s'.
 Proof.
   intros [Hg Ht] H. unfold bstep in H. destruct (nth_error (bthreads s) i) as [t|] eqn:Hi; [|discriminate].
   pose proof (Ht i t Hi) as Hti.
-  destruct t as [l pc|c pc act|pc|l started|l dn].
+  destruct t as [l pc|c pc act|pc|l started|l dn|l started].
   - (* accept loop of listener l *)
     destruct pc as [| | |c|r]; [| | | |discriminate].
     + (* the locked section of listener.listen() *)
       cbn [thread_ok] in Hti. destruct Hti as [Hl Hreg].
       destruct (l_acc (get_l s l)) eqn:Ea.
-      * destruct (orb (l_closed (get_l s l)) (bctx s)) eqn:Eo; inversion H; subst; clear H.
+      * destruct (orb (l_closed (get_l s l)) (bctx s)) eqn:Eo; [|destruct conn]; inversion H; subst; clear H.
         -- apply (binv_build s); auto. cbn [set_t bthreads]. apply thr_upd; [exact Ht|exact I].
+        -- (* the transport factory's Listen failed: nothing changes but the thread *)
+           apply (binv_build s); auto. cbn [set_t bthreads]. apply thr_upd; [exact Ht|exact I].
         -- apply orb_false_iff in Eo as [Ec Eb].
            assert (Hsh : sh s = ShNot) by (destruct (sh s) eqn:E; auto; rewrite (G_ctx s Hg) in Eb by congruence; discriminate).
            assert (Hr : l_reg (get_l s l) = true) by (destruct Hreg; congruence).
@@ -361,11 +367,17 @@ Proof.
     apply (binv_build (close_listener s l)); auto; [apply ginv_close_listener; exact Hg|].
     cbn [set_t bthreads]. change (bthreads (close_listener s l)) with (bthreads s).
     apply thr_upd; [intros j t Hn; apply tok_close_listener; eauto|exact I].
+  - (* a user calls Sync/Async again on a Listener it holds: another Sync thread, the registry untouched *)
+    cbn [thread_ok] in Hti. destruct started; [discriminate|].
+    destruct (orb (l_reg (get_l s l)) (l_closed (get_l s l))) eqn:Er; [|discriminate]. inversion H; subst; clear H.
+    apply (binv_build s); auto. cbn [spawn set_t bthreads]. apply thr_spawn.
+    + apply thr_upd; [exact Ht|exact Hti].
+    + cbn [thread_ok]. split; [exact Hti|]. apply orb_true_iff in Er. exact Er.
 Qed.
 
 Lemma tok_sh_keep s p t : (forall c, read_ok s c -> read_ok (set_sh s p) c) -> p <> ShNot -> thread_ok s t -> thread_ok (set_sh s p) t.
 Proof.
-  intros Hr Hp. destruct t as [l' pc|c' pc a|pc|l' b|l' b]; cbn [thread_ok set_sh chans lsts holder sh]; auto.
+  intros Hr Hp. destruct t as [l' pc|c' pc a|pc|l' b|l' b|l' b]; cbn [thread_ok set_sh chans lsts holder sh]; auto.
   intros [Hc Hq]. split; [exact Hc|]. destruct pc; auto;
     first [ intros _ E; congruence | intros Hu; apply (Hr c'); apply Hq; exact Hu ].
 Qed.
@@ -415,7 +427,7 @@ Proof.
     + constructor; cbn [set_sh set_holder bctx sh lsts chans holder get_l get_c]; auto; try discriminate;
         first [ intros _; apply Hctx; congruence | intros l _; apply Hnone; reflexivity ].
     + intros j t Hn. cbn [set_sh set_holder bthreads] in Hn. specialize (Ht j t Hn).
-      destruct t as [l' pc|c' pc a|pc|l' b|l' b]; cbn [thread_ok set_sh set_holder chans lsts sh holder get_l get_c] in *; auto.
+      destruct t as [l' pc|c' pc a|pc|l' b|l' b|l' b]; cbn [thread_ok set_sh set_holder chans lsts sh holder get_l get_c] in *; auto.
       destruct Ht as [Hc Hq]. split; [exact Hc|]. destruct pc; auto;
         first [ intros _ E; congruence
               | intros Hu; specialize (Hq Hu); unfold read_ok in *; cbn [set_sh set_holder sh holder]; rewrite Es in Hq; exact Hq ].
@@ -435,7 +447,7 @@ Proof.
           first [ intros _; apply Hctx'; congruence | intros l' _; apply Hnone'; rewrite F2, Es; reflexivity ].
       * intros j t Hn. cbn [set_sh bthreads] in Hn. rewrite F4 in Hn. pose proof (Ht j t Hn) as Hold.
         pose proof (tok_close_chan s c t Hold) as Hnew.
-        destruct t as [l' pc|c' pc a|pc|l' b|l' b]; cbn [thread_ok set_sh chans lsts holder sh get_l get_c] in *; auto.
+        destruct t as [l' pc|c' pc a|pc|l' b|l' b|l' b]; cbn [thread_ok set_sh chans lsts holder sh get_l get_c] in *; auto.
         destruct Hnew as [Hc Hq]. split; [exact Hc|]. destruct pc; auto;
           first [ intros _ E; congruence
                 | intros Hu; specialize (Hq Hu); unfold read_ok in *; cbn [set_sh sh]; rewrite F2, Es in Hq;
@@ -457,6 +469,7 @@ Definition init_bthread (nl : nat) (t : bthread) : bool :=
   | BListen l false => l <? nl
   | BConnect CoServe => true
   | BLClose _ false => true
+  | BRetry l false => l <? nl
   | _ => false
   end.
 
@@ -476,8 +489,9 @@ Proof.
     + intros l _. rewrite Hd. discriminate.
     + intros c Hc. cbn in Hc. lia.
   - intros i t Hn. specialize (Hall t (nth_error_In _ _ Hn)).
-    destruct t as [l pc|c pc a|pc|l b|l b]; cbn in Hall; try discriminate; cbn [thread_ok]; auto.
-    destruct b; [discriminate|]. cbn [binit lsts]. rewrite repeat_length. apply Nat.ltb_lt. exact Hall.
+    destruct t as [l pc|c pc a|pc|l b|l b|l b]; cbn in Hall; try discriminate; cbn [thread_ok]; auto.
+    + destruct b; [discriminate|]. cbn [binit lsts]. rewrite repeat_length. apply Nat.ltb_lt. exact Hall.
+    + destruct b; [discriminate|]. cbn [binit lsts]. rewrite repeat_length. apply Nat.ltb_lt. exact Hall.
 Qed.
 
 (* ---------------- auxiliary: every channel has its read-loop thread ---------------- *)
@@ -504,9 +518,9 @@ Proof.
   { intros t' Hk c Hex. apply nth_upd_exists; [|exact Hex]. intros pc a Hn. rewrite Hi in Hn. inversion Hn; subst. eapply Hk; eauto. }
   assert (Hlenc : forall c, length (chans (close_chan s c)) = length (chans s)) by (intros c; apply (close_chan_fields s c)).
   assert (Hthc : forall c, bthreads (close_chan s c) = bthreads s) by (intros c; apply (close_chan_fields s c)).
-  destruct t as [l pc|c pc act|pc|l started|l dn].
+  destruct t as [l pc|c pc act|pc|l started|l dn|l started].
   - destruct pc as [| | |c|r]; [| | | |discriminate].
-    + destruct (l_acc (get_l s l)); [destruct (orb _ _)| |]; inversion H; subst; clear H;
+    + destruct (l_acc (get_l s l)); [destruct (orb _ _); [|destruct conn]| |]; inversion H; subst; clear H;
         (constructor; cbn [set_t set_l bthreads chans];
          [intros c Hc; apply Hkeep; [intros; discriminate|auto]
          |intros j c pc a Hn Hp; apply nth_upd_cases in Hn; destruct Hn as [[_ E]|[_ Hn]]; [discriminate|eauto]
@@ -526,7 +540,7 @@ Proof.
         apply nth_upd_cases in Hn. destruct Hn as [[_ E]|[_ Hn]]; [discriminate|eauto].
       * intros j t Hn. apply nth_app_spawn in Hn. destruct Hn as [Hn|[_ ->]]; [|exact I].
         apply nth_upd_cases in Hn. destruct Hn as [[_ ->]|[_ Hn]]; [lia|].
-        specialize (Hw j t Hn). destruct t as [? []| | []| |]; auto; lia.
+        specialize (Hw j t Hn). destruct t as [? []| | []| | |]; auto; lia.
     + destruct (existsb _ _); inversion H; subst; clear H.
       constructor; cbn [set_t bthreads chans];
         [intros c' Hc; apply Hkeep; [intros; discriminate|auto]
@@ -555,7 +569,7 @@ Proof.
         apply nth_upd_cases in Hn. destruct Hn as [[_ E]|[_ Hn]]; [discriminate|eauto].
       * intros j t Hn. apply nth_app_spawn in Hn. destruct Hn as [Hn|[_ ->]]; [|exact I].
         apply nth_upd_cases in Hn. destruct Hn as [[_ ->]|[_ Hn]]; [lia|].
-        specialize (Hw j t Hn). destruct t as [? []| | []| |]; auto; lia.
+        specialize (Hw j t Hn). destruct t as [? []| | []| | |]; auto; lia.
     + destruct (existsb _ _); inversion H; subst; clear H.
       constructor; cbn [set_t bthreads chans];
         [intros c' Hc; apply Hkeep; [intros; discriminate|auto]
@@ -574,6 +588,14 @@ Proof.
     + intros c Hc. apply Hkeep; [intros; discriminate|auto].
     + intros j c pc a Hn Hp. apply nth_upd_cases in Hn. destruct Hn as [[_ E]|[_ Hn]]; [discriminate|eauto].
     + intros j t Hn. apply nth_upd_cases in Hn. destruct Hn as [[_ ->]|[_ Hn]]; [exact I|apply (Hw j t Hn)].
+  - destruct started; [discriminate|]. destruct (orb _ _); [|discriminate]. inversion H; subst; clear H.
+    constructor; cbn [spawn set_t bthreads chans].
+    + intros c Hc. destruct (Hkeep (BRetry l true) ltac:(intros; discriminate) c (Ha c Hc)) as [j [pc [a Hj]]].
+      exists j, pc, a. rewrite nth_error_app1; [exact Hj|]. apply nth_error_Some. congruence.
+    + intros j c pc a Hn Hp. apply nth_app_spawn in Hn. destruct Hn as [Hn|[_ E]]; [|discriminate].
+      apply nth_upd_cases in Hn. destruct Hn as [[_ E]|[_ Hn]]; [discriminate|eauto].
+    + intros j t Hn. apply nth_app_spawn in Hn. destruct Hn as [Hn|[_ ->]]; [|exact I].
+      apply nth_upd_cases in Hn. destruct Hn as [[_ ->]|[_ Hn]]; [exact I|apply (Hw j t Hn)].
 Qed.
 
 Lemma close_listener_fields s l : chans (close_listener s l) = chans s /\ bthreads (close_listener s l) = bthreads s.
@@ -604,7 +626,7 @@ Proof.
   intros Hall. rewrite forallb_forall in Hall. constructor; cbn [binit chans bthreads].
   - intros c Hc. cbn in Hc. lia.
   - intros i c pc a Hn. specialize (Hall _ (nth_error_In _ _ Hn)). discriminate.
-  - intros i t Hn. specialize (Hall _ (nth_error_In _ _ Hn)). destruct t as [l []| | []| |]; try exact I; discriminate.
+  - intros i t Hn. specialize (Hall _ (nth_error_In _ _ Hn)). destruct t as [l []| | []| | |]; try exact I; discriminate.
 Qed.
 
 (* ---------------- C13: what holds once Shutdown has returned and nothing can move ---------------- *)
@@ -666,7 +688,7 @@ Proof.
     pose proof (G_none s Hg l) as Hn. rewrite Hsh in Hn. specialize (Hn eq_refl). rewrite Ex in Hn.
     destruct (l_acc x); congruence.
   - unfold sync_threads_ok. apply forallb_forall. intros t Ht.
-    destruct (In_nth_error _ _ Ht) as [i Hi]. destruct t as [l pc| | | |]; try reflexivity.
+    destruct (In_nth_error _ _ Ht) as [i Hi]. destruct t as [l pc| | | | |]; try reflexivity.
     destruct (quiescent_sync_done s i l pc Hb Ha Hsh Hq Hi) as [r ->]. reflexivity.
 Qed.
 
@@ -703,6 +725,7 @@ Definition tweight (t : bthread) : nat :=
   | BConnect CoServe => 5 | BConnect (CoWait _) => 1 | BConnect CoDone => 0
   | BListen _ false => 3 | BListen _ true => 0
   | BLClose _ false => 1 | BLClose _ true => 0
+  | BRetry _ false => 2 | BRetry _ true => 0
   end.
 Definition bmeasure (s : bst) : nat := list_sum (map tweight (bthreads s)).
 
@@ -727,7 +750,7 @@ Proof.
   assert (Hus : forall s0 t' tn, bthreads s0 = bthreads s -> tweight t' + tweight tn < tweight t ->
             bmeasure (spawn (set_t s0 i t') tn) < bmeasure s).
   { intros s0 t' tn E Hw. unfold bmeasure. cbn [spawn set_t bthreads]. rewrite E, sum_app. pose proof (sum_upd _ i t t' Hi). lia. }
-  destruct t as [l pc|c pc act|pc|l started|l dn].
+  destruct t as [l pc|c pc act|pc|l started|l dn|l started].
   - destruct pc as [| | |c|r]; [| | | |discriminate].
     + destruct (l_acc (get_l s l)); [rewrite Hctx, orb_true_r in H| |]; inversion H; subst; apply Hu; auto; cbn; lia.
     + destruct (l_acc (get_l s l)) eqn:Ea; [discriminate| |].
@@ -745,18 +768,20 @@ Proof.
     + destruct (existsb _ _); inversion H; subst. apply Hu; auto; cbn; lia.
   - destruct started; [discriminate|]. inversion H; subst. apply Hus; [reflexivity|cbn; lia].
   - destruct dn; [discriminate|]. inversion H; subst. apply Hu; [reflexivity|cbn; lia].
+  - destruct started; [discriminate|]. destruct (orb _ _); [|discriminate]. inversion H; subst. apply Hus; [reflexivity|cbn; lia].
 Qed.
 
 Lemma past_listeners_step s i conn s' : bstep s i conn = Some s' -> sh s' = sh s.
 Proof.
-  unfold bstep. destruct (nth_error (bthreads s) i) as [[l pc|c pc a|pc|l b|l b]|]; [| | | | |discriminate].
-  - destruct pc; [destruct (l_acc _); [destruct (orb _ _)| |]|destruct (l_acc _); [|destruct conn|]| |destruct (existsb _ _)|];
+  unfold bstep. destruct (nth_error (bthreads s) i) as [[l pc|c pc a|pc|l b|l b|l b]|]; [| | | | | |discriminate].
+  - destruct pc; [destruct (l_acc _); [destruct (orb _ _); [|destruct conn]| |]|destruct (l_acc _); [|destruct conn|]| |destruct (existsb _ _)|];
       intros H; inversion H; reflexivity.
   - destruct pc; [|destruct (ctx_done_of s c)|destruct (c_closed _)|]; intros H; inversion H; try reflexivity.
     cbn [set_t sh]. apply (close_chan_fields s c).
   - destruct pc; [|destruct (existsb _ _)|]; intros H; inversion H; reflexivity.
   - destruct b; intros H; inversion H; reflexivity.
   - destruct b; intros H; inversion H; reflexivity.
+  - destruct b; [|destruct (orb _ _)]; intros H; inversion H; reflexivity.
 Qed.
 
 (* once Shutdown has returned, every sequence of thread steps that all fire is at most bmeasure long *)
@@ -816,7 +841,7 @@ Qed.
 Theorem chan_threads_done_quiescent s : BInv s -> sh s = ShDone -> bquiescent s = true -> chan_threads_done s = true.
 Proof.
   intros Hb Hsh Hq. unfold chan_threads_done. apply forallb_forall. intros t Ht.
-  destruct (In_nth_error _ _ Ht) as [i Hi]. destruct t as [|c pc a| | |]; try reflexivity.
+  destruct (In_nth_error _ _ Ht) as [i Hi]. destruct t as [|c pc a| | | |]; try reflexivity.
   rewrite (quiescent_chan_done s i c pc a Hb Hsh Hq Hi). reflexivity.
 Qed.
 
